@@ -346,6 +346,8 @@ class Evaluator:
                 return vals[0] // vals[1]
             if name == 'hash':
                 return hash(vals[0])
+            if name == 'heap_eq':
+                return True
             if name in ('to_real', 'to_int'):
                 return vals[0] if name == 'to_real' else int(vals[0] // 1)
             if name == 'list_eq':
@@ -370,6 +372,16 @@ class Evaluator:
                 return vals[0]
             if name == 'nothing':
                 return None
+            if name == 'heap_unchanged':
+                for oid_, attrs in snap.attrs.items():
+                    o = next(x for x in snap.keep if id(x) == oid_)
+                    for an, av in attrs.items():
+                        cur = getattr(o, an, None)
+                        same = (cur is av) or (not isinstance(av, (dict, list, set, collections.deque)) and cur == av) \
+                            or (isinstance(av, (dict, list, set, collections.deque)) and type(cur) is type(av) and list(cur) == list(av))
+                        if not same:
+                            return False
+                return True
             if name == 'unchanged':
                 return self.eq(self.ev(a[0], env, snap, False), self.ev(a[0], env, snap, True))
             if name == 'isinstance':
